@@ -707,6 +707,10 @@ func runC14(c *Ctx) {
 			// an extension whose value is null (and one that holds nulls) on the transported object itself
 			doc = doc.Set("x-null", wire.MustParse(`null`)).Set("x-holds-null", wire.MustParse(`{"a":null,"b":[null,1]}`))
 		}
+		if (kind == "operation" || kind == "swagger") && i%4 == 1 {
+			// explicitly empty lists ("an empty value MAY be used to clear the global definition")
+			doc = doc.Set([]string{"consumes", "produces", "schemes", "tags"}[c.Intn(4)], wire.ArrV())
+		}
 		if kind == "operation" || kind == "swagger" {
 			switch c.Intn(4) {
 			case 0:
